@@ -16,7 +16,19 @@
                    value and leaves the WHOLE state unchanged;
      unbounded     element (i, j) of the value of the reference node of an
                    unbounded range (alias of a bounded range node) is the value
-                   of the member cell.
+                   of the member cell;
+     valued_is_spec / states_agree   after any history every non-empty cache
+                   entry is the from-scratch value;
+     run_valued_iff    EXACTLY which entries hold a value after a Build/Evaluate
+                   history: those that did, the newly built cells with a stored
+                   result, the newly built range nodes with their ancestors, the
+                   evaluated nodes with their ancestors;
+     history_order     hence two histories with the same operations end in
+                   pointwise equal states (and same_members / permutation /
+                   list_repeat need no side condition on the start state);
+     history_values    the value an operation returns does not depend on its
+                   position in the history;
+     path_any_range    one cell through any two range nodes that contain it.
    Everything is proved under the strong non-blank condition first and then
    transferred to the weak one (Proofs/C01Weak.v), which is the form in
    Props/C05.v (sem_nonblank implies sem_nonblank_weak: nonblank_weaken). *)
